@@ -172,6 +172,42 @@ theorem auto_batch_size_ge_one (ops : List JoblibModel.AutoBatch.Op) :
     ∀ b ∈ JoblibModel.AutoBatch.run {} ops, 1 ≤ b :=
   JoblibModel.AutoBatch.run_all_ge_one {} ops (by decide)
 
+/-- The same ACROSS the calls of one `Parallel` object (round 5, seed m2): the loky / multiprocessing backends keep their
+batching statistics between the calls of a managed `with Parallel(...)` (they are reset by `terminate()` only: `Op.reset`),
+whatever the inputs of these calls are (`Op.newCall nTasks nDispatched nWorkers`: sized or unsized input, the counters of the
+`Parallel` object, the number of workers — the mixin reads none of them). After ANY history `hist` of calls (computes,
+completions, resets, new calls, in any order and number) the stored `_effective_batch_size` is ≥ 1, and every value
+`compute_batch_size` returns in whatever follows (`next`) is ≥ 1 — so no later call can slice its input by `islice(it, 0)` and
+take it for exhausted. -/
+theorem auto_batch_size_ge_one_across_calls (hist next : List JoblibModel.AutoBatch.Op) :
+    1 ≤ (JoblibModel.AutoBatch.final {} hist).eff ∧
+    (∀ b ∈ JoblibModel.AutoBatch.run (JoblibModel.AutoBatch.final {} hist) next, 1 ≤ b) ∧
+    JoblibModel.AutoBatch.run {} (hist ++ next) =
+      JoblibModel.AutoBatch.run {} hist ++ JoblibModel.AutoBatch.run (JoblibModel.AutoBatch.final {} hist) next :=
+  have h := JoblibModel.AutoBatch.final_eff_ge_one {} hist (by decide)
+  ⟨h, JoblibModel.AutoBatch.run_all_ge_one _ next h, JoblibModel.AutoBatch.run_append {} hist next⟩
+
+/-- The batch size depends on the history of `(batch size, duration)` records since the last reset ONLY: the inputs of the
+calls (`newCall`) can be dropped from any history without changing a single returned value. -/
+theorem auto_batch_size_ignores_call_inputs (s : JoblibModel.AutoBatch.St) (ops : List JoblibModel.AutoBatch.Op) :
+    JoblibModel.AutoBatch.run s ops =
+      JoblibModel.AutoBatch.run s (ops.filter (fun o => match o with | .newCall _ _ _ => false | _ => true)) := by
+  induction ops generalizing s with
+  | nil => rfl
+  | cons op r ih =>
+    cases op with
+    | compute => simp only [List.filter, JoblibModel.AutoBatch.run, JoblibModel.AutoBatch.step]; rw [ih]
+    | completed b d => simp only [List.filter, JoblibModel.AutoBatch.run, JoblibModel.AutoBatch.step]; rw [ih]
+    | reset => simp only [List.filter, JoblibModel.AutoBatch.run, JoblibModel.AutoBatch.step]; rw [ih]
+    | newCall a b c => simp only [List.filter, JoblibModel.AutoBatch.run, JoblibModel.AutoBatch.step]; rw [ih]
+
+/-- A managed object: a 400-task list processed in fast batches (the size grows 1 → 2 → 4), then a second call with a short
+sized input whose last `compute_batch_size` is made with nothing left to dispatch: all sizes ≥ 1 (a cap by "tasks left /
+workers", cf. the counterexample of seed m2, would have given 0 here and in every later call). -/
+example : JoblibModel.AutoBatch.run {} [.newCall (some 400) 0 2, .compute, .completed 1 ⟨1, 100⟩, .compute, .completed 2 ⟨1, 100⟩,
+    .compute, .newCall (some 3) 0 2, .compute, .completed 4 ⟨1, 100⟩, .newCall (some 3) 3 2, .compute, .newCall none 0 2, .compute]
+    = [1, 2, 4, 4, 8, 8] := by decide
+
 /-! ### the hypotheses are satisfiable -/
 
 /-- A configuration (`n_jobs=2`, auto batch sizes 1, 3, 2, …, `pre_dispatch=3`, list mode) and a non-trivial
